@@ -387,3 +387,51 @@ PROPERTIES["C01"] = {
                "TCP option sequences with symbolic kinds in the middle",
     "assumptions": ["E1", "E3", "E6", "parse_tls_client_hello and check_ts_tcp stubbed where stated"],
 }
+
+# ------------------------------------------------------------------------------------------ C02
+_c02 = [H(f"c02::c02_http_key_{v}", "quick", f"http::Signature with version {v}, request and response observation with any of the 4 concrete versions",
+          "calculate_distance some => observation key among the signature's keys") for v in ["v10", "v11", "v20", "v30", "any"]]
+_c02 += [H(f"c02::c02_tcp_key_{n}", "quick", f"tcp::Signature version/pclass {n}, observation version in {{V4,V6}} x pclass in {{Zero,NonZero}} symbolic, equal (empty) layouts",
+           "calculate_distance some => (version, pclass) part of the observation key among the signature's keys")
+         for n in ["v4_zero", "v6_nonzero", "any_zero", "v4_any", "any_any", "v6_any", "any_nonzero"]]
+PROPERTIES["C02"] = {
+    "harnesses": _c02,
+    "explanation": "Key-coverage lemma ('the index never hides an acceptable entry') by bounded model checking of the real key generators and distance functions: "
+                   "whenever a signature accepts an observation, the observation's index key is among the keys the signature is filed under. HTTP completely "
+                   "(all signature versions x all observation versions, request and response); TCP for the version x payload-class part of the key.",
+    "functions": ["<http::Signature as DatabaseSignature<_>>::{calculate_distance, generate_index_keys_for_db_entry}", "Http{Request,Response}Observation::generate_index_key",
+                  "<tcp::Signature as DatabaseSignature<TcpObservation>>::{calculate_distance, generate_index_keys_for_db_entry}", "TcpObservation::generate_index_key"],
+    "bounds": "all version / payload-class combinations; TCP option layouts empty on both sides",
+    "outside": "FingerprintCollection::{new, find_best_match}: HashMap index construction and lookup, the minimum loop (first minimum wins, quality of that distance) - "
+               "std HashMap is not executable under Kani/CBMC (2 inserts > 25 min); the olayout string part of the TCP key (format!/join; both sides use the same Display); "
+               "seeds C02-2 (index construction) is missed by design",
+    "assumptions": ["E1", "E6 format stub (layout strings not compared)"],
+}
+
+# ------------------------------------------------------------------------------------------ C13
+import json as _json, os as _os
+# (generated tables: see ensure_generated() in ./check)
+_c13 = []
+_p = "/verif/kani/src/gen/c13_sigs.json"
+if _os.path.exists(_p):
+    for i, c in enumerate(_json.load(open(_p))):
+        _c13.append(H(c["name"], "quick", "bundled TCP signature class " + c["class"] + " (" + str(len(c["signatures"])) + " signature(s), e.g. " + c["signatures"][0] + "); hops 0..30, MSS/scale/version/pclass/window symbolic where the signature leaves them open",
+                      "real calculate_ttl + detect_win_multiplicator render a conforming packet into an observation with distance 0 to the signature", timeout_s=600))
+# the rendering half (the header walk produces the layout/quirks/values the signatures list): C03 shapes
+_c13 += [dict(h) for h in PROPERTIES["C03"]["harnesses"] if h["name"] in {
+    "c03::c03_opt_ws_4", "c03::c03_opt_mss_4", "c03::c03_opt_ts_12_syn", "c03::c03_opt_sok_4", "c03::c03_flag_shape", "c03::c03_ipv4_shape", "c03::c03_mss_window_shape"}]
+for _h in _c13:
+    if _h["name"].startswith("c03::"):
+        _h["tier"] = "quick"
+PROPERTIES["C13"] = {
+    "harnesses": _c13,
+    "explanation": "Composition lemma per bundled TCP signature class, regenerated from the real Database::load_default on every run (tools/gen-tables): "
+                   "for all admissible concretisations of a conforming SYN / SYN+ACK the observation built by the real TTL and window extractors has "
+                   "distance 0 to the signature under the real calculate_distance, so the best match is this signature or an earlier equally good one.",
+    "functions": ["Database::load_default (generator, native)", "ttl::calculate_ttl", "window_size::detect_win_multiplicator", "tcp::Ttl::distance_ttl", "tcp::WindowSize::distance_window_size",
+                  "<tcp::Signature as DatabaseSignature<TcpObservation>>::calculate_distance"],
+    "bounds": "every bundled TCP signature (199, in 111 scalar classes); hops 0..=30; MSS 64..=65535 when '*'; window <= 65535",
+    "outside": "that the header walk renders layout/quirks/pclass as the signature lists them (C03 shapes); that the observation is found through the index (C02: HTTP and TCP version/pclass part); "
+               "HTTP request/response signatures (a conforming message must go through Http1Parser: HashMap, not encodable); shadowing by earlier more generic entries",
+    "assumptions": ["E1", "layout, quirks, olen copied from the signature", "wildcard MSS >= 64"],
+}
